@@ -260,6 +260,7 @@ pub fn run(req: &RunRequest) -> Value {
         cluster.think_min = 0;
         cluster.think_max = 3 * MS;
         cluster.system_page_rows = plan.system_page_rows;
+        cluster.system_empty_pages = plan.system_page_rows > 0 && tape::chance("c07:sys_empty", 1, 2);
         let net = NetCfg {
             chaos_yield_permille: [0, 50][tape::choose("c07:chaos", 2) as usize],
             chunk_permille: [0, 300][tape::choose("c07:chunk", 2) as usize],
@@ -305,8 +306,18 @@ fn draw_page_plan(slow_allowed: bool) -> PagePlan {
             break;
         }
     }
+    // One page of some plans hands out a ZERO-LENGTH paging state together with
+    // has_more_pages (any byte string is a legal, opaque state).
+    let empty_state_at = if sizes.len() > 1 && tape::chance("c07:empty_state", 1, 5) {
+        Some(tape::choose("c07:empty_state_at", sizes.len() as u64 - 1) as usize)
+    } else {
+        None
+    };
     let states: Vec<Vec<u8>> = (0..sizes.len().saturating_sub(1))
         .map(|j| {
+            if empty_state_at == Some(j) {
+                return Vec::new();
+            }
             let n = tape::range("c07:state_len", 1, 12) as usize;
             let mut s: Vec<u8> = (0..n).map(|_| tape::choose("c07:state_byte", 256) as u8).collect();
             // Make states unique per page.
